@@ -3,10 +3,10 @@ CONSTANTS
   N = 2
   Deadlines = {1}
   Periods = {1}
-  Kinds = {"sleep", "timeout", "interval"}
+  Kinds = {"sleep", "interval"}
   NW = 1
   MaxNow = 2
-  MaxGen = 3
+  MaxGen = 2
   Mut = "none"
 SPECIFICATION FairSpec
 PROPERTIES Completes Fires
